@@ -49,20 +49,30 @@ pub enum Which {
     C04,
 }
 
+/// A share of the runs gets a long horizon with a long dark period (back-off behaviour over tens of seconds).
 pub fn strategy(max_horizon_s: u16) -> impl Strategy<Value = Case> {
+    prop_oneof![
+        5 => strategy_h(max_horizon_s, false),
+        1 => strategy_h(max_horizon_s.max(170), true),
+    ]
+}
+
+fn strategy_h(max_horizon_s: u16, long: bool) -> impl Strategy<Value = Case> {
     (2u8..=4).prop_flat_map(move |n| {
-        let fault = (1u8..n, 0u16..(max_horizon_s * 10), prop_oneof![3 => 10u16..120, 2 => 50u16..400, 1 => 1u16..20], prop_oneof![3 => Just(0u8), 1 => Just(1u8), 2 => Just(2u8), 1 => Just(3u8), 2 => Just(4u8)])
+        let dur = if long { prop_oneof![1 => 10u16..120, 4 => 280u16..700].boxed() } else { prop_oneof![3 => 10u16..120, 2 => 50u16..400, 1 => 1u16..20].boxed() };
+        let start_max = if long { 400u16 } else { max_horizon_s * 10 };
+        let fault = (1u8..n, 0u16..start_max, dur, prop_oneof![3 => Just(0u8), 1 => Just(1u8), 2 => Just(2u8), 1 => Just(3u8), 2 => Just(4u8)])
             .prop_map(|(link, start_ds, dur_ds, kind)| Fault { link, start_ds, dur_ds, kind });
         (
             0u8..TIMEOUTS.len() as u8,
             any::<bool>(),
             (max_horizon_s / 2).max(20)..=max_horizon_s,
-            prop_oneof![Just(50u16), Just(100), Just(200), 20u16..400],
-            prop_oneof![Just(5u8), Just(20), 1u8..60],
+            if long { prop_oneof![Just(200u16), Just(400), 150u16..400].boxed() } else { prop_oneof![Just(50u16), Just(100), Just(200), 20u16..400].boxed() },
+            if long { prop_oneof![Just(3u8), 1u8..8].boxed() } else { prop_oneof![Just(5u8), Just(20), 1u8..60].boxed() },
             vec(prop_oneof![Just(10u16), Just(40), Just(120), 5u16..400], n as usize),
             any::<u32>(),
-            vec(fault, 0..6),
-            vec((0u16..(max_horizon_s * 10), prop::bool::weighted(0.3)), 0..2),
+            vec(fault, if long { 1..3 } else { 0..6 }),
+            vec((0u16..(max_horizon_s * 10), prop::bool::weighted(0.3)), if long { 0..1 } else { 0..2 }),
         )
             .prop_map(move |(timeout, classic, horizon_s, burst_gap_ms, burst_n, rtt_ms, jit, faults, forgets)| Case {
                 n_links: n,
